@@ -106,13 +106,13 @@ PRE_STATES = {
 }
 
 
-def h_since(pre):
+def h_since(pre, until=False):
     def h(run, functions):
         P, Q = StubExpr('opP'), StubExpr('opQ')
         testers = copy.deepcopy(PRE_STATES[pre])
         before = copy.deepcopy(testers)
         f = _fn(functions, past._flatten_since)
-        r = f((P, Q), testers, 'bool')
+        r = f((P, Q), testers, 'bool', until=until)
         _frame(run, '_flatten_since', before, testers, (P, Q))
         run.oblige('_flatten_since: returns a fresh tester variable; operands flattened in Boolean context with the same testers',
                    z3.BoolVal(r in testers and r not in before
@@ -191,7 +191,7 @@ def h_semantics_lemmas():
     return h
 
 
-def h_previous_expr(strong, pre):
+def h_previous_expr(strong, pre, until=False):
     """`-X` / `--X` applied to a non-terminal operand."""
     op = '--X' if strong else '-X'
 
@@ -200,7 +200,7 @@ def h_previous_expr(strong, pre):
         testers = copy.deepcopy(PRE_STATES[pre])
         before = copy.deepcopy(testers)
         f = _fn(functions, past._flatten_previous)
-        r = f(op, X, testers, 'bool')
+        r = f(op, X, testers, 'bool', until=until)
         _frame(run, '_flatten_previous', before, testers, (X,))
         run.oblige('_flatten_previous: returns a fresh tester variable',
                    z3.BoolVal(r in testers and r not in before))
@@ -273,14 +273,14 @@ def h_previous_const(strong, const):
         fs = _funcs(*names) if names else dict()
         den = traces.TraceDen(fs)
         n = z3.Int('n')
-        cval = z3.BoolVal(const == 'TRUE')
+        cval = z3.BoolVal(const.upper() == 'TRUE')
         zero = z3.IntVal(0)
         hyp0 = [den.at(d['init'], zero) for d in testers.values()]
         hypn = [den.at(d['trans'], n) for d in testers.values()]
         run.oblige(f'{op} {const}: value at position 0 is {not strong}',
                    z3.Implies(z3.And(*hyp0) if hyp0 else z3.BoolVal(True),
                               den.at(r, zero) == z3.BoolVal(not strong)))
-        run.oblige(f'{op} {const}: value at n+1 is {const}',
+        run.oblige(f'{op} {const}: value at n+1 is {const.upper()}',
                    z3.Implies(z3.And(n >= 0, *hypn), den.at(r, n + 1) == cval))
         for k, d in testers.items():
             _tester_obligations(run, f'{op} {const} tester {k}', d, k, fs,
@@ -289,7 +289,7 @@ def h_previous_const(strong, const):
     return h
 
 
-def h_hist_once(op, pre):
+def h_hist_once(op, pre, until=False):
     """`-[] x` and `-<> x`."""
     def h(run, functions):
         X = StubExpr('opX', adds_tester=False)
@@ -298,7 +298,7 @@ def h_hist_once(op, pre):
         # the operand of -[] is wrapped into a negation node by the code
         node = past.Nodes.Unary(op, X)
         f = _fn(functions, past.Nodes.Unary.flatten)
-        r = f(node, testers=testers, context='bool')
+        r = f(node, testers=testers, context='bool', until=until)
         _frame(run, f'Unary.flatten({op})', before, testers)
         new = [k for k in testers if k not in before]
         run.oblige(f'{op}: exactly one tester added', z3.BoolVal(len(new) == 1))
@@ -401,7 +401,11 @@ def h_passthrough():
 # ---------------------------------------------------------------------------
 # end-to-end, bounded in the trace length (all traces of that length)
 
+E2E_UNTIL = ['-[] p', '-<> p', 'p S q', '-X p', '--X q', r'-[] (p => -<> q)', r'(-X false) \/ -<> (p S q)']
+
 E2E = [
+    '-X false', '-X False', '--X true', '--X True', '-X true', '--X false',
+    r'(-X false) /\ p', 'false S p', 'p S True',
     '-X p', '--X p', r'(-X p) /\ (--X p)', r'(--X p) \/ (-X p)',
     '-X -X p', '--X --X p', '-X --X p', r'-X (p /\ q)', r'--X (p \/ ~ q)',
     'p S q', r'(p S q) S (-X q)', r'(-X p) S (--X q)', '-[] p', '-<> p',
@@ -437,10 +441,10 @@ def generated_formulas(tier):
     return sorted(set(out))
 
 
-def h_translate_e2e(formula, L):
+def h_translate_e2e(formula, L, until=False):
     def run_():
         import itertools
-        dvars, r, init, trans, win = past.translate(formula)
+        dvars, r, init, trans, win = past.translate(formula, until=until)
         names = ['p', 'q'] + list(dvars)
         vals = {nm: [z3.Bool(f'{nm}@{i}') for i in range(L + 1)]
                 for nm in names}
